@@ -219,12 +219,14 @@ Definition inf_branch (z : itv) (ls us inf_sign : Z) : itv :=
 Notation mulz := (mul_assign_z C so).
 Notation divz := (div_assign_z C so).
 
-(* The branch "xl < 0 < xu, yl < 0 < yu" of mul_assign (lines 838-865): two candidate products per
-   end; `to_lower = tmp;' / `upper() = tmp;' copy the VALUE of the second candidate only, the OPEN and
-   SPECIAL bits of the result stay those of the first candidate (to_info).  [fixed] = true takes the
-   bits of the second candidate too. *)
-Definition pick (fixed cond : bool) (first tmp : bnd) : bnd :=
-  if cond then (if fixed then tmp else set_val C first (bv tmp)) else first.
+(* The branch "xl < 0 < xu, yl < 0 < yu" of mul_assign (lines 838-873): two candidate products per
+   end.  CURRENT code ([pre] = false): when the second candidate replaces the first one
+   (`to_lower = tmp;' / `upper() = tmp;') its SPECIAL and OPEN bits are copied from tmp_info into
+   to_info as well, i.e. the result end is the second candidate, value and bits.
+   [pre] = true is the code BEFORE commit ed6ee8d (historical): only the VALUE was copied, the bits of
+   the result stayed those of the first candidate. *)
+Definition pick (pre cond : bool) (first tmp : bnd) : bnd :=
+  if cond then (if pre then set_val C first (bv tmp) else tmp) else first.
 
 Definition strad_tmpl (xu yl : bnd) : bnd :=
   Boundary.mul_assign C so LOWER (mkB (czero C) false false) UPPER xu LOWER yl.
@@ -233,16 +235,17 @@ Definition strad_tmpu (xu yu : bnd) : bnd :=
   Boundary.mul_assign C so UPPER (mkB (czero C) false false) UPPER xu UPPER yu.
 Definition strad_tou (tu xl yl : bnd) : bnd := Boundary.mul_assign C so UPPER tu LOWER xl LOWER yl.
 
-Definition mul_straddle (fixed : bool) (tl tu xl xu yl yu : bnd) : itv :=
+Definition mul_straddle (pre : bool) (tl tu xl xu yl yu : bnd) : itv :=
   let tmpl := strad_tmpl xu yl in     (* tmp with tmp_info; its value is dirty when tmp is infinite *)
   let tol := strad_tol tl xl yu in
   let tmpu := strad_tmpu xu yu in
   let tou := strad_tou tu xl yl in
-  mkI (pick fixed (gt LOWER tol LOWER tmpl) tol tmpl) (pick fixed (lt UPPER tou UPPER tmpu) tou tmpu).
+  mkI (pick pre (gt LOWER tol LOWER tmpl) tol tmpl) (pick pre (lt UPPER tou UPPER tmpu) tou tmpu).
 
 Definition same_flags (a b : bnd) : bool := Bool.eqb (bsp a) (bsp b) && Bool.eqb (bop a) (bop b).
 
-(* the second candidate replaces the first one and its bits differ: (lower end, upper end) *)
+(* the second candidate replaces the first one and its bits differ: (lower end, upper end); this is
+   where the code before ed6ee8d differed from the current one *)
 Definition straddle_flag_loss (tl tu xl xu yl yu : bnd) : bool * bool :=
   let tmpl := strad_tmpl xu yl in
   let tol := strad_tol tl xl yu in
@@ -292,21 +295,24 @@ Definition mul_ladder (A : Type) (kempty : A) (kinf : Z -> Z -> Z -> A)
           (* xl < 0 < xu, yl < 0 < yu *)
           kstrad xl xu yl yu.
 
-Definition mul_assign_gen (fixed : bool) (z x y : itv) : itv :=
+Definition mul_assign_gen (pre : bool) (z x y : itv) : itv :=
   let z0 := info_clear z in
   mul_ladder itv (assign_empty z) (inf_branch z)
     (fun _ fl fu => mkI (fl (lower z0)) (fu (upper z0)))
-    (fun xl xu yl yu => mul_straddle fixed (lower z0) (upper z0) xl xu yl yu) x y.
+    (fun xl xu yl yu => mul_straddle pre (lower z0) (upper z0) xl xu yl yu) x y.
 
-(* diagnostics used by the correspondence check: branch number and whether the defect is exercised *)
+(* diagnostics used by the correspondence check (coverage only): branch number, and whether the case
+   is one where the code before ed6ee8d lost the flags *)
 Definition mul_diag (z x y : itv) : Z * (bool * bool) :=
   let z0 := info_clear z in
   mul_ladder (Z * (bool * bool)) (0%Z, (false, false)) (fun _ _ _ => (10%Z, (false, false)))
     (fun n _ _ => (n, (false, false)))
     (fun xl xu yl yu => (9%Z, straddle_flag_loss (lower z0) (upper z0) xl xu yl yu)) x y.
 
+(* Interval::mul_assign as it is now *)
 Definition mul_assign := mul_assign_gen false.
-Definition mul_assign_fixed := mul_assign_gen true.
+(* HISTORICAL: Interval::mul_assign before commit ed6ee8d (kept only for the refutation in Defect.v) *)
+Definition mul_assign_pre_ed6ee8d := mul_assign_gen true.
 
 (* div_assign(x, y) *)
 Definition div_assign (z x y : itv) : itv :=
